@@ -229,6 +229,8 @@ def r4(F, R):
         fs = [(s, t) for s, t in b.calls(lambda t: callee_is(t, r"TryStreamExt::try_fold$"))]
         if fs:
             folds_by_body[b.key] = (b, fs)
+    if not folds_by_body:
+        return _r4_loops(F, R, rs, tree, step_fn)
     if len(folds_by_body) != 1:
         raise Unverifiable(f"body with try_fold calls: {len(folds_by_body)}")
     b, folds = list(folds_by_body.values())[0]
@@ -299,6 +301,11 @@ def r4(F, R):
                 consts_by_fold.append((i, ds))
                 ok_k = True
         R.check(ok_k, f"fold{i + 1}/runs-step", s, "", f"fold {i + 1}'s closure does not call run_step exactly once")
+    _constructor_triples(F, R, rs)
+    R.floor(14)
+
+
+def _constructor_triples(F, R, rs):
     # constructor triples: in RS, compose(bg_started, bg_passed, bg_skipped) / compose(started, passed, skipped)
     composes = [(s, t) for s, t in rs.calls(lambda t: callee_is(t, r"ops::Fn::call$")) if any((op_fn(o) or {}).get("path", "").startswith("event::Scenario") for o in _tuple_ops(rs, t["args"][1]))]
     trip = []
@@ -321,6 +328,99 @@ def r4(F, R):
         steps = [[sorted(x.rsplit("::", 1)[-1] for x in ts if "event::Step::" in x) for ts in tr] for tr in built]
         ok_built = all(len(set(k)) == 1 for k in kinds) and {kinds[0][0], kinds[1][0]} == {"bg", "st"} and all(s == [["Started"], ["Passed"], ["Skipped"]] for s in steps)
     R.check(ok_built, "constructor-triples", rs, "(started, passed, skipped) triples of one kind each", f"event constructor triples are inconsistent: {trip}")
+
+
+def _r4_loops(F, R, rs, tree, step_fn):
+    """The explicit-loop spelling of the three folds: three `for` loops, each awaiting run_step(world, step, ..)? per element
+    and threading the World through a variable.  Same instance keys as the fold form."""
+    calls = [(b, s, t) for b in tree for s, t in b.calls() if F.callee_body(t, b.crate) is step_fn]
+    bodies = {b.key for b, _, _ in calls}
+    if len(bodies) != 1:
+        raise Unverifiable(f"run_step is called from {len(bodies)} bodies and there is no try_fold")
+    b = calls[0][0]
+    cs = [(s, t) for _, s, t in calls]
+    R.check(len(cs) == 3, "three-folds", b, "three step loops", f"{len(cs)} run_step call sites")
+    if len(cs) != 3:
+        return
+    cs.sort(key=lambda x: sum(1 for y in cs if y[0] != x[0] and b.site_reaches(y[0], x[0]) and not b.site_reaches(x[0], y[0])))
+    want_src = [("gherkin::Feature", "background"), ("gherkin::Rule", "background"), ("gherkin::Scenario", "steps")]
+    want_bg = [1, 1, 0]
+    aws = A.awaits(b)
+    nexts = [(s, t) for s, t in b.calls(lambda t: callee_is(t, r"Iterator::next$"))]
+    prev_await = None
+    for i, (s, t) in enumerate(cs):
+        drv = [(sn, tn) for sn, tn in nexts if s.bb in A.natural_loop(b, sn.bb)]
+        drv.sort(key=lambda x: len(A.natural_loop(b, x[0].bb)))
+        if not drv:
+            R.violation(f"fold{i + 1}/source", s, f"run_step call {i + 1} is not inside a loop over steps")
+            continue
+        sn, tn = drv[0]
+        src = A.slice_back(b, [tn["args"][0]])
+
+        def with_closures(sl):
+            fs = set(sl.fields)
+            for _, rv in sl.aggs:
+                if rv.get("agg") == "closure" and F.body(rv["def"]) is not None:
+                    for nb in F.nested(F.body(rv["def"])):
+                        for _, st in nb.assigns():
+                            for pl in A.rvalue_places(st["rv"]):
+                                fs |= set(place_fields(pl))
+            return fs
+        fields = with_closures(src)
+        # what selects the loop (an `if let Some(background) = ..` around it) belongs to its source
+        for g in A.guards_of(b, sn):
+            if g.discr_local is not None:
+                fields |= with_closures(A.slice_back(b, start_locals=[g.discr_local]))
+        if i == 0:
+            ok_src = want_src[0] in fields and ("gherkin::Scenario", "steps") not in fields and ("gherkin::Rule", "background") not in fields
+        elif i == 1:
+            ok_src = want_src[1] in fields and ("gherkin::Scenario", "steps") not in fields
+        else:
+            ok_src = want_src[2] in src.fields and ("gherkin::Rule", "background") not in src.fields and ("gherkin::Feature", "background") not in src.fields
+        R.check(ok_src, f"fold{i + 1}/source", s, f"loop {i + 1} iterates {want_src[i][0]}.{want_src[i][1]}",
+                f"loop {i + 1} does not iterate {want_src[i][0]}.{want_src[i][1]} (reads {sorted(n for o, n in fields if o.startswith('gherkin::'))})")
+        bad = sorted({callee_path(ct).rsplit("::", 1)[-1] for _, ct in src.calls if (op_fn(ct["func"]) or {}).get("trait", "").endswith(("Iterator", "Itertools"))
+                      and callee_path(ct).rsplit("::", 1)[-1] in LOSSY})
+        R.check(not bad, f"fold{i + 1}/order-preserving", s, "", f"loop {i + 1} iterates through {bad}")
+        init = A.slice_back(b, [t["args"][1]], stop_calls=[r"Future::poll$"]) if len(t["args"]) > 1 else None
+        if i == 0:
+            first_aw = [aw for aw in aws if "ExecutionFailure" in aw.fut_type and b.dominates(aw.poll_site, s)]
+            R.check(init is not None and any(aw.poll_site in init.sites for aw in first_aw), "fold1/seeded-by-before-hook", s, "loop 1 starts from the before hook's world",
+                    "loop 1 is not seeded with the before hook's result")
+        else:
+            R.check(init is not None and prev_await is not None and prev_await.poll_site in init.sites, f"fold{i + 1}/seeded-by-previous", s, "",
+                    f"loop {i + 1} does not continue with the World of loop {i}")
+        my_aw = [aw for aw in aws if aw.src_op is not None and s in A.slice_back(b, [aw.src_op]).sites]
+        prev_await = my_aw[0] if my_aw else None
+        # `?`: after an Err no further step runs
+        ok_abort = False
+        if prev_await is not None:
+            x, hops = prev_await.ready_bb, 0
+            while hops < 12:
+                tm = b.blocks[x]["term"]
+                if tm["k"] == "switch":
+                    g = [gg for gg in A.guards_of(b, Site(b, b.succ[x][0], 0)) if gg.bb == x]
+                    d = g[0].cond_def() if g else None
+                    if d and d[0] == "discr" and d[2] in ("std::ops::ControlFlow", "std::result::Result"):
+                        vm = {n: v for v, n in d[3]}
+                        key = "Break" if "Break" in vm else "Err"
+                        tg = [tgt for v, tgt in tm["targets"] if v == vm.get(key)]
+                        if tg:
+                            ok_abort = not any(b.site_reaches(Site(b, tg[0], 0), s2) for s2, _ in cs)
+                        break
+                    break
+                nx = b.succ[x]
+                if len(nx) != 1:
+                    break
+                x, hops = nx[0], hops + 1
+        R.check(ok_abort, f"fold{i + 1}/abort-on-err", s, "no step runs after a step returned Err (`?`)", f"after run_step of loop {i + 1} returned Err another step can run")
+        # every element runs the step exactly once
+        leaves = lambda y: not any(b.site_reaches(Site(b, y, 0), s2) for s2, _ in cs)   # the `?` exit: no step runs afterwards
+        R.check(A.for_loop_handles_every_element(b, sn, tn, {s.bb}, exit_ok=leaves), f"fold{i + 1}/runs-step", s, "every element of the loop runs run_step",
+                f"loop {i + 1} can skip an element (or leave early) without calling run_step")
+        bools = [const_int(a) for a in t["args"] if const_int(a) is not None and a.get("ty") == "bool"]
+        R.check(bools == [want_bg[i]], f"fold{i + 1}/is-background", s, f"is_background = {bool(want_bg[i])}", f"loop {i + 1} passes is_background = {bools}")
+    _constructor_triples(F, R, rs)
     R.floor(14)
 
 
